@@ -224,6 +224,57 @@ def case_two(rec, c):
                     rec.trace()
 
 
+DOC_DEFAULTS = {'dc': 1.0, 'dc_unit': 'nanometer', 'ec': 2.48, 'ec_unit': 'kilojoule/mole'}     # documented constructor defaults
+
+
+def case_defaults(rec, c):
+    """A converter built with explicit arguments, then converters built with some arguments omitted (documented defaults),
+    then a shallow copy of each; and a valid call after a call that failed."""
+    import copy
+    import pyPRISM
+    first = dict(dc=c['dc'], dc_unit=c['dc_unit'], ec=c['ec'], ec_unit=c['ec_unit'])
+    try:
+        uc0 = pyPRISM.util.UnitConverter(**first)
+    except Exception as e:
+        rec.fail(c, 'constructor raised %s' % type(e).__name__, {'method': 'init', 'kind': 'raises'})
+        return
+    rec.state()
+    for omit in (['dc_unit', 'ec', 'ec_unit'], ['dc', 'dc_unit'], ['ec_unit'], ['dc', 'dc_unit', 'ec', 'ec_unit']):
+        kw = {k: v for k, v in first.items() if k not in omit}
+        eff = dict(DOC_DEFAULTS)
+        eff.update(kw)
+        try:
+            uc = pyPRISM.util.UnitConverter(**kw)
+        except Exception as e:
+            rec.fail(dict(c, omitted=omit), 'UnitConverter(%r) raised %s' % (kw, type(e).__name__), {'method': 'init', 'kind': 'raises'})
+            continue
+        rec.state()
+        for method in METHODS:
+            check_call(rec, dict(c, omitted=omit, method=method), uc, method, 'arr3', ARGS['arr3'], eff['dc'], eff['dc_unit'], eff['ec'], eff['ec_unit'],
+                       label=' (constructed with %r omitted, after another converter was built with %r)' % (omit, first))
+            rec.trace()
+    # the first converter still answers with its own values, and so does a shallow copy of it
+    for label, obj in (('', uc0), (' (copy.copy of the converter)', None)):
+        if obj is None:
+            try:
+                obj = copy.copy(uc0)
+            except Exception:
+                continue
+        for method in METHODS:
+            check_call(rec, dict(c, method=method, copied=bool(label)), obj, method, 'arr3', ARGS['arr3'], c['dc'], c['dc_unit'], c['ec'], c['ec_unit'], label=label)
+            rec.trace()
+    # a call that fails must not change what the next valid call returns
+    for bad in METHODS:
+        try:
+            getattr(uc0, bad)(None) if bad != 'toVolumeFraction' else getattr(uc0, bad)(None, None)
+        except Exception:
+            pass
+        for method in METHODS:
+            check_call(rec, dict(c, method=method, after_failed=bad), uc0, method, 'scalar', ARGS['scalar'], c['dc'], c['dc_unit'], c['ec'], c['ec_unit'],
+                       label=' after a failed %s(None)' % bad)
+            rec.trace()
+
+
 def replay(rec, case):
     with warnings.catch_warnings(), np.errstate(all='ignore'):
         warnings.simplefilter('ignore')
@@ -231,6 +282,8 @@ def replay(rec, case):
             case_pairs(rec, case)
         elif case.get('kind') == 'two':
             case_two(rec, case)
+        elif case.get('kind') == 'defaults':
+            case_defaults(rec, case)
         else:
             case_conv(rec, case)
 
@@ -262,6 +315,8 @@ def run(rec, tier, seed):
     for (dcu, ecu), (dcu2, ecu2) in itertools.product(twos, repeat=2):
         cases.append({'kind': 'two', 'dc': 1.5, 'dc_unit': dcu, 'ec': 2.48, 'ec_unit': ecu,
                       'dc2': 3.4, 'dc_unit2': dcu2, 'ec2': 0.6, 'ec_unit2': ecu2})
+    for dcu, ecu in ([('angstrom', 'kcal/mol'), ('micrometer', 'eV')] if tier == 'quick' else list(itertools.product(LEN, EN))):
+        cases.append({'kind': 'defaults', 'dc': 4.5, 'dc_unit': dcu, 'ec': 0.6, 'ec_unit': ecu})
     chunks = [cases[i::32] for i in range(32)]
     core.pmap(_worker, [c for c in chunks if c], rec)
     rec.note('alphabets', {'dc': dcs, 'dc_unit': list(LEN), 'ec': ecs, 'ec_unit': list(EN), 'methods': METHODS, 'arguments': ARGS,
